@@ -82,7 +82,7 @@ def execute(stim):
                 rec('start', b=b, ok=True)
 
             def stop(self):
-                rec('stop', b=b)
+                rec('stop', b=b, inited=bool(self.is_initialized()))
                 super().stop()
                 if fault == 'stop':
                     raise fire('stop', b, False)
@@ -185,8 +185,15 @@ def execute(stim):
                 if 'tmo' in conf:
                     kw['stop_timeout'] = conf['tmo'] * TICK
                 blk = counting(edzed.Repeat, b, conf)(name, dest=sink, interval=2 * TICK, **kw)
+            elif k == 'of':
+                def fn(v, b=b):
+                    rec('outrun', b=b, sd=(v == 'S'))
+                    return v
+                blk = counting(edzed.OutputFunc, b, conf)(
+                    name, func=fn, on_error=None, stop_data={'value': 'S'} if conf.get('sd') else None)
             elif k == 'oa':
-                async def co(v):
+                async def co(v, b=b):
+                    rec('outrun', b=b, sd=(v == 'S'))
                     await asyncio.sleep(conf.get('dur', 1) * TICK)
                 blk = counting(edzed.OutputAsync, b, conf)(
                     name, coro=co, mode=conf.get('mode', 'w'), on_error=None,
@@ -264,7 +271,8 @@ def execute(stim):
                         and getattr(blk, 'stop_timeout', 0) > 0)
             tmo = round(getattr(blk, 'stop_timeout', 0) / TICK) if is_async else 0
             res.append({'async': bool(is_async), 'tmo': tmo, 'kind': conf['kind'],
-                        'counted': isinstance(blk, edzed.SBlock)})
+                        'counted': isinstance(blk, edzed.SBlock),
+                        'sd': bool(conf.get('sd')) and conf['kind'] in ('oa', 'of')})
         return res
 
     orig_abort = edzed.simulator.Circuit.abort
@@ -454,6 +462,6 @@ def execute(stim):
         edzed.simulator.Circuit.run_forever = orig_rf
         signal.signal(signal.SIGTERM, old)
     # blocks that are not sequential (cb) have no start/stop records: not counted
-    hdr = {'blocks': [{'async': h['async'], 'tmo': h['tmo']} for h in result['hdr']], 'api': stim['api'],
+    hdr = {'blocks': [{'async': h['async'], 'tmo': h['tmo'], 'sd': h['sd']} for h in result['hdr']], 'api': stim['api'],
            'check': stim.get('check', '')}
     return {'hdr': hdr, 'ev': lines}
